@@ -192,6 +192,23 @@ def run(ctx: Ctx):
         if not at2.guarded(g2, s, pred):
             ctx.fail("_flag_connection_as_ready:set", g2.loc(s), "an application is flagged ready "
                      "without one of its peers owning this connection")
+        # ... and with nothing more: "ready whenever at least one of its configured peers has a ready
+        # connection" - the flag is set under the ownership test (and the Application type test of
+        # the route table's keys) alone; a further condition (the negotiated application ids, a
+        # vendor, a counter) leaves an application not ready although its peer's connection is
+        fs = must_facts(g2, at2, s)
+        extra = [x for x in fs if not (
+            (x[1] in ("==x", "is-expr") and (str(x[0]).endswith(".connection") or str(x[2]).endswith(".connection")))
+            or str(x[0]).replace(" ", "").startswith("isinstance(")
+            or (x[0] == f"{fparam}.state"))]
+        ctx.inst("_flag_connection_as_ready:set#unconditional")
+        if extra:
+            ctx.fail("_flag_connection_as_ready:set#unconditional", g2.loc(s),
+                     f"an application is flagged ready only under {sorted(map(str, extra))[:3]}: with that "
+                     f"condition false (e.g. a relay agent, whose CER/CEA advertises only the Relay application) "
+                     f"the connection of a configured peer is READY and bound to the peer, but is_ready is never "
+                     f"set and wait_for_ready() blocks",
+                     expected="is_ready.set() under `peer.connection == conn` alone", observed=str(extra)[:200])
     if "_peer_routes" not in ast.unparse(flag.node):
         ctx.fail("_flag_connection_as_ready:set#routes", flag.loc(), "readiness does not consult the route table")
     # recomputation in remove_peer_connection
